@@ -52,7 +52,8 @@ def model(ctx):
         res = tlc.run("CacheFS", tlc.make_cfg(constants=consts(wl), invariants=invs, deadlock=False), coverage=True)
         ctx.add_tlc(f"CacheFS ideal, workload={wl}", res)
         ctx.require(res.ok, f"CacheFS ideal ({wl}) violated: {res.error_name}")
-        res = tlc.run("CacheFS", tlc.make_cfg(constants=consts(wl, '{"%s"}' % dev), invariants=invs, deadlock=False))
+        # (only the invariant the deviation is meant to break: which one TLC meets first must not depend on thread timing)
+        res = tlc.run("CacheFS", tlc.make_cfg(constants=consts(wl, '{"%s"}' % dev), invariants=[expect], deadlock=False))
         ctx.add_tlc(f"CacheFS deviation {dev}", res)
         ctx.require(not res.ok and res.error_name == expect, f"deviation {dev} yields no counterexample (stale)")
         cex[dev] = [f"{t['action']}{t['context'] or ''}" for t in res.trace[1:]]
